@@ -49,7 +49,8 @@ Verdict(r) ==
 
 Report(i) ==
   LET v == Verdict(Rec[i]) IN
-  v.ok \/ PrintT(<<"BAD", ToJson([i |-> i, why |-> v.why])>>)
+  v.ok \/ PrintT(<<"BAD", ToJson(IF "expected" \in DOMAIN v THEN [i |-> i, why |-> v.why, expected |-> v.expected]
+                                  ELSE [i |-> i, why |-> v.why])>>)
 
 DeclNames == {Rec[i].name : i \in {j \in 1..N : Rec[j].ev = "decl"}}
 MissingDecls == ExportNames \ DeclNames
